@@ -1,5 +1,6 @@
 """C17 — multiget returns, for each requested href, the current resource or 404."""
 import json
+import urllib.parse
 
 import compat  # noqa: F401
 from bodies import AttrTable, Tokens, gen_ical, gen_vcard, INVALID_ICAL, UIDS
@@ -160,6 +161,50 @@ def run_histories(chk, n, length):
                           {"frontend": fe, "prefix": prefix, "first": ln, "model": model, "history": hist(j)})
 
 
+def bare_collection(chk):
+    """a calendar that is a bare repository (xandikos serves both layouts): multiget against GET"""
+    import os
+    import shutil
+    from common import scratch_dir
+    from httpfam import HttpImpl
+    from bodies import vevent
+    from xandikos.store.git import BareGitStore
+    for fe in ("wsgi", "aiohttp"):
+        root = scratch_dir()
+        impl = None
+        try:
+            impl = HttpImpl(fe, "/dav/" if fe == "wsgi" else "/", Tokens(), root)
+            impl.close()
+            st = BareGitStore.create(os.path.join(root, "data", "user", "calendars", "team"))
+            st.set_type("calendar")
+            del st
+            impl = HttpImpl(fe, "/dav/" if fe == "wsgi" else "/", Tokens(), root)
+            team = "/user/calendars/team"
+            base = impl.prefix.rstrip("/")
+            for i, n in enumerate(["a.ics", "b c.ics", "x#y.ics"]):
+                impl.srv.request("PUT", base + urllib.parse.quote(team + "/" + n), {"Content-Type": "text/calendar"},
+                                 vevent("team-%d" % i, summary="tab\there %d" % i))
+            sels = [("member", team + "/a.ics"), ("member", team + "/b c.ics"), ("member", team + "/x#y.ics"),
+                    ("member", team + "/gone.ics"), ("member", CAL + "/a.ics"), ("coll", team)]
+            impl.multiget(team, "calendar", sels)
+            impl.srv.request("DELETE", base + urllib.parse.quote(team + "/a.ics"), {})
+            impl.srv.request("PUT", base + urllib.parse.quote(team + "/b c.ics"), {"Content-Type": "text/calendar"},
+                             vevent("team-1", summary="changed"))
+            impl.multiget(team, "calendar", sels)
+            impl.multiget(CAL, "calendar", sels)
+            chk.case(("bare-collection", fe), nontrivial=True)
+            seen = set()
+            for note in impl.notes:
+                if note.startswith(PREFIXES) and note.split(" ")[0] not in seen:
+                    seen.add(note.split(" ")[0])
+                    chk.violation(note.split(" ")[0] + ":bare-collection@" + fe, note + f" (bare-repository collection, front end {fe})",
+                                  {"level": "http", "frontend": fe, "collection": "bare repository " + team})
+        finally:
+            if impl is not None:
+                impl.close()
+            shutil.rmtree(root, ignore_errors=True)
+
+
 def run(chk):
     chk.rule = ("write histories (PUT/DELETE/restart, members whose names contain #, ?, %, space, non-ASCII, a card in "
                 "a calendar, a name without extension) interleaved with calendar-/addressbook-multiget requests whose "
@@ -172,6 +217,7 @@ def run(chk):
     chk.lean_obligations(MODULE, AUDIT)
     quick = chk.tier == "quick"
     run_histories(chk, 6 if quick else 80, 30 if quick else 50)
+    bare_collection(chk)
 
 
 def replay(chk, path):
